@@ -78,9 +78,20 @@ def strat_focus(tier):
         'out': st.one_of(st.tuples(oax, oax).map(list), oax.map(lambda k: [k, k])),
         'shift': st.one_of(st.just([0, 0]), st.tuples(sh, sh).map(list)),     # in units of output samples; converted to output units
         'shift_type': st.sampled_from(['tuple', 'tuple', 'ndarray']), 'fftbackend': U.fft_backends,
+        'layout': U.layouts, 'larger_first': st.sampled_from([False, False, True]),
         # fractions of the array that are dark above / below / left / right of the aperture
         'aperture': st.one_of(st.none(), st.none(), st.tuples(*[st.sampled_from([0.0, 0.0, 0.1, 0.25, 0.4])] * 4).map(list)),
     })
+
+
+def _larger_window_first(ctx, case, call, out):
+    """history: the same request first with larger output windows (even and odd, each axis on its own) - what they leave in the shared executors must not
+    be cut down for the checked, smaller window"""
+    if not case.get('larger_first', False):
+        return
+    for dy, dx_ in ((6, 6), (5, 4), (1, 0)):
+        ctx.call(call, (out[0] + dy, out[1] + dx_))
+    ctx.label('history:larger-output-window-first')
 
 
 def check_focus(case, ctx):
@@ -166,7 +177,11 @@ def _check_focus_inner(case, ctx):
     ctx.label('shift-as:' + styp)
     ctx.nt(frac or shifted or ny != nx or case['Qfix'] != 1.0)
     ctx.label('shifted' if shifted else 'unshifted', 'out-square' if my == mx else 'out-nonsquare')
+    if case.get('layout', 'C') != 'C':
+        f = U.relayout(f, case['layout'])          # same values, another memory layout (Fortran-ordered, transposed view, strided)
+        ctx.label('layout:' + case['layout'])
     if via == 'function':
+        _larger_window_first(ctx, case, lambda o_: P.focus_fixed_sampling(f, dxp, efl, lam, dxo, o_, shift=shift_units, method=route), (my, mx))
         data = ctx.call(P.focus_fixed_sampling, f, dxp, efl, lam, dxo, (my, mx), shift=shift_units, method=route)
     else:
         w = P.Wavefront(f, lam, dxp)
@@ -238,6 +253,7 @@ def strat_unfocus(tier):
         'route': st.sampled_from(['fft', 'mdft', 'czt', 'mdft', 'czt']), 'via': st.sampled_from(['function', 'wavefront']),
         'shift': st.one_of(st.just([0, 0]), st.just([0, 0]), st.tuples(st.integers(-6, 6).map(lambda k: k / 2), st.integers(-6, 6).map(lambda k: k / 2)).map(list)),
         'fdtype': st.sampled_from(['complex128', 'complex128', 'float64', 'float32', 'bool']), 'fftbackend': U.fft_backends,
+        'layout': U.layouts, 'larger_first': st.sampled_from([False, False, True]),
         # history: the forward trip of the exchanged geometry first (a focus from a p x p pupil onto the m x m focal grid at the same Q value), on
         # dyadic numbers so that the two Q values are the same float although the sample counts differ
         'twin': st.one_of(st.none(), st.none(), st.none(), st.fixed_dictionaries({'m': st.sampled_from([4, 8, 16]), 'p': st.sampled_from([4, 8, 16]), 'Q': st.sampled_from([1.0, 2.0, 4.0, 0.5])})),
@@ -266,6 +282,12 @@ def _check_unfocus_inner(case, ctx):
         dx_twin = lam * efl / (tw['p'] * dxf * tw['Q'])
         ctx.call(P.focus_fixed_sampling, np.ones((tw['p'], tw['p']), dtype=complex), dx_twin, efl, lam, dxf, (tw['m'], tw['m']), shift=(0, 0), method=route)
         del dxp_
+        # and another public function that transforms on the same module-level executor: fttools.fourier_resample(f, zoom) (DM.render uses it) runs
+        # mdft.idft2 with Q = zoom onto int(m * zoom) samples - the geometry of the checked unfocus when p == m * Q
+        if int(tw['m'] * tw['Q']) == tw['p'] and tw['Q'] != 1.0:
+            from prysm.fttools import fourier_resample
+            ctx.call(fourier_resample, np.ones((tw['m'], tw['m'])), tw['Q'])
+            ctx.label('history:fourier-resample-with-the-same-geometry-first')
     my, mx = fshape
     F = np.zeros((my, mx), dtype=complex)
     iy, ix = case['at'][0] % my, case['at'][1] % mx
@@ -280,6 +302,9 @@ def _check_unfocus_inner(case, ctx):
         if fdt == 'bool':
             F = F > 0
     ctx.label('focal-dtype:' + fdt)
+    if case.get('layout', 'C') != 'C' and route != 'fft':
+        F = U.relayout(F, case['layout'])          # same values, another memory layout
+        ctx.label('layout:' + case['layout'])
     Fn = F.astype(np.complex128)          # numeric values for the oracle
     ctx.label('route:' + route, 'via:' + via, 'square' if my == mx else 'nonsquare', 'two-spots' if case['second'] else 'one-spot')
     ctx.nt((iy != my // 2 or ix != mx // 2) or my != mx)
@@ -315,6 +340,7 @@ def _check_unfocus_inner(case, ctx):
     shifted = any(v != 0 for v in ssam)
     sh = (ssam[0] * dxp, ssam[1] * dxp)          # output (pupil) units
     if via == 'function':
+        _larger_window_first(ctx, case, lambda o_: P.unfocus_fixed_sampling(F, dxf, efl, lam, dxp, o_, shift=sh, method=route), (py_, px_))
         g = ctx.call(P.unfocus_fixed_sampling, F, dxf, efl, lam, dxp, (py_, px_), shift=sh, method=route)
     else:
         w = P.Wavefront(F, lam, dxf, space='psf')
